@@ -12,41 +12,111 @@ variable {md th sl : Nat}
 /-- the manager never holds more than one live connection, and the live one is `_connection` -/
 theorem at_most_one_live (s : S) (h : Reach md th sl s) :
     s.live.length ≤ 1 ∧ ∀ c ∈ s.live, s.conn = some c := by
-  sorry
+  have hi := reach_inv h
+  rcases hi.live1 with h0 | ⟨c, hl, hc⟩
+  · simp [h0]
+  · simp [hl, hc]
 
 /-- a new attempt starts only after the previous connection has ended -/
 theorem attempt_only_after_previous_ended (s s' : S) (l : Label) (h : Reach md th sl s)
     (hs : next s l = some s') (ha : (s.now, Ev.attempt) ∈ s'.log.drop s.log.length) :
     s.live = [] ∧ s.conn = none := by
-  sorry
+  have hi := reach_inv h
+  obtain ⟨_, _, _, ht⟩ := attempt_emitted s s' l hs ha
+  have hc : s.conn = none := by
+    cases hcn : s.conn with
+    | none => rfl
+    | some c =>
+      have := (hi.connPh c hcn).1
+      rcases ht with ⟨h1, _⟩ | ⟨u, h1, _⟩ <;> simp [h1] at this
+  refine ⟨?_, hc⟩
+  rcases hi.live1 with h0 | ⟨c, _, hc'⟩
+  · exact h0
+  · simp [hc] at hc'
 
 /-- only a bounded number of tasks is pending however many reconnect cycles occur -/
 theorem tasks_bounded (s : S) (h : Reach md th sl s) : pendingTasks s ≤ 3 := by
-  sorry
+  have hi := reach_inv h
+  have h1 := hi.pcStart
+  have h2 := hi.pcW1
+  have h3 := hi.pcW2
+  have h4 := hi.pcEx
+  unfold pendingTasks
+  cases hl : s.lpc <;> simp [hl] at h1 h2 h3 h4 ⊢ <;> cases ht : s.t <;> simp_all
 
 /-- after connect_loop has returned: every transport the manager obtained is closed, no waiter is
     left, and the connect task is finished or its cancellation is pending -/
 theorem exited_clean (s : S) (h : Reach md th sl s) (he : s.lpc = .exited) :
     s.live = [] ∧ s.conn = none ∧ s.waiters = 0 ∧ (s.t = .none ∨ s.t = .finished ∨ s.cancelReq = true) := by
-  sorry
+  have hi := reach_inv h
+  have hc : s.conn = none := by
+    cases hcn : s.conn with
+    | none => rfl
+    | some c =>
+      have := (hi.connPh c hcn).2
+      simp [he] at this
+  have hl : s.live = [] := by
+    rcases hi.live1 with h0 | ⟨c, _, hc'⟩
+    · exact h0
+    · simp [hc] at hc'
+  exact ⟨hl, hc, (hi.pcEx he).1, (hi.pcEx he).2⟩
 
 /-- no connection attempt is started while closing is requested, nor after connect_loop returned -/
 theorem no_attempt_after_close (s s' : S) (l : Label) (h : Reach md th sl s)
     (hs : next s l = some s') (ha : (s.now, Ev.attempt) ∈ s'.log.drop s.log.length) :
     s.closing = false ∧ s.lpc ≠ .exited := by
-  sorry
+  have hi := reach_inv h
+  obtain ⟨_, hcr, hcl, ht⟩ := attempt_emitted s s' l hs ha
+  refine ⟨hcl, fun he => ?_⟩
+  have := (hi.pcEx he).2
+  rcases ht with ⟨h1, _⟩ | ⟨u, h1, _⟩ <;> simp [h1, hcr] at this
 
 /-- after close(), connect_loop returns at its very next step — without waiting out a back-off sleep
     or a pending attempt (no clock advance, no factory result is needed) -/
 theorem close_never_waits (s : S) (h : Reach md th sl s) (hc : s.closing = true) (hl : s.lpc ≠ .exited) :
     ∃ s', next s .lRun = some s' ∧ s'.lpc = .exited := by
-  sorry
+  obtain ⟨now, closing, conn, lpc, t, cancelReq, backoff, breaker, nextId, live, doneSet, waiters, log⟩ := s
+  simp only at hc hl
+  subst hc
+  cases lpc <;> cases conn <;> simp [next, topLogic, S.emit, closeTransport] at hl ⊢
 
 /-- connect_loop returns only when close() was called: it keeps reconnecting after every failure and
     every loss -/
 theorem exits_only_when_closing (s s' : S) (l : Label) (h : Reach md th sl s)
     (hs : next s l = some s') (h1 : s.lpc ≠ .exited) (h2 : s'.lpc = .exited) : s.closing = true := by
-  sorry
+  obtain ⟨now, closing, conn, lpc, t, cancelReq, backoff, breaker, nextId, live, doneSet, waiters, log⟩ := s
+  simp only at h1 ⊢
+  cases closing
+  · exfalso
+    cases l with
+    | lRun =>
+      cases lpc <;> cases conn <;> simp [next, topLogic] at hs h1
+      all_goals first
+        | (subst hs; simp at h2)
+        | (obtain ⟨_, hs⟩ := hs; subst hs; simp at h2)
+    | tRun =>
+      cases t <;> cases cancelReq <;> simp [next, afterSleep, S.emit] at hs
+      all_goals first
+        | (subst hs; exact h1 h2)
+        | (obtain ⟨_, hs⟩ := hs; subst hs; exact h1 h2)
+        | (split at hs <;> simp at hs <;> subst hs <;> exact h1 h2)
+    | factoryOk =>
+      simp [next, S.emit] at hs
+      obtain ⟨_, hs⟩ := hs; subst hs; exact h1 h2
+    | factoryFail =>
+      simp [next, S.emit] at hs
+      obtain ⟨_, hs⟩ := hs; subst hs; exact h1 h2
+    | lose =>
+      cases conn <;> simp [next, S.emit] at hs
+      obtain ⟨_, hs⟩ := hs; subst hs; exact h1 h2
+    | close =>
+      cases conn <;> simp [next, S.emit, closeTransport] at hs
+      · subst hs; exact h1 h2
+      · split at hs <;> subst hs <;> exact h1 h2
+    | tick d =>
+      simp [next] at hs
+      subst hs; exact h1 h2
+  · rfl
 
 /-- …and it never gets stuck: in every reachable state in which connect_loop has not returned, a task
     can run now, or the manager is waiting for a timer, for the connection factory, or for the loss
@@ -54,29 +124,86 @@ theorem exits_only_when_closing (s s' : S) (l : Label) (h : Reach md th sl s)
 theorem no_deadlock (s : S) (h : Reach md th sl s) (hl : s.lpc ≠ .exited) :
     (∃ s', next s .lRun = some s') ∨ (∃ s', next s .tRun = some s') ∨ (∃ u, s.t = .sleeping u) ∨
     s.t = .inFactory ∨ (s.lpc = .w2 ∧ ∃ c, s.conn = some c ∧ c ∈ s.live) := by
-  sorry
+  have hi := reach_inv h
+  obtain ⟨h1,h2,h3,h4,h5,h5',h6,h7,h8,h9,h10⟩ := hi
+  obtain ⟨now, closing, conn, lpc, t, cancelReq, backoff, breaker, nextId, live, doneSet, waiters, log⟩ := s
+  simp only at h1 h2 h3 h4 h5 h5' h6 h7 h8 h9 h10 hl ⊢
+  cases lpc
+  · left; exact ⟨_, rfl⟩
+  · have hcr : cancelReq = false := by cases cancelReq <;> simp_all
+    subst hcr
+    cases t with
+    | none => simp at h7
+    | created =>
+      right; left
+      by_cases hp : getBackOffTime backoff breaker > 0 <;> simp [next, hp]
+    | sleeping u => right; right; left; exact ⟨u, rfl⟩
+    | inFactory => right; right; right; left; rfl
+    | finished =>
+      left
+      cases conn <;> cases closing <;> simp [next]
+  · cases conn with
+    | none =>
+      left
+      have : closing = true := by simp at h8; exact h8.2.2
+      subst this
+      simp [next]
+    | some c =>
+      rcases h2 c rfl with hlv | hd
+      · right; right; right; right
+        exact ⟨rfl, c, rfl, hlv⟩
+      · left
+        simp [next, hd]
+  · exact absurd rfl hl
 
 /-- C18 on the event loop: the connect task sleeps exactly `_get_back_off_time()` before it may call
     the factory, and it does not call it before that time -/
 theorem sleeps_backoff_time (s s' : S) (hs : next s .tRun = some s') (ht : s.t = .created)
     (hc : s.cancelReq = false) (hp : getBackOffTime s.backoff s.breaker > 0) :
     s'.t = .sleeping (s.now + getBackOffTime s.backoff s.breaker) ∧ s'.log = s.log := by
-  sorry
+  obtain ⟨now, closing, conn, lpc, t, cancelReq, backoff, breaker, nextId, live, doneSet, waiters, log⟩ := s
+  simp only at ht hc hp ⊢
+  subst ht; subst hc
+  simp [next, hp] at hs
+  subst hs
+  exact ⟨rfl, rfl⟩
 
 theorem attempt_not_before_wake (s s' : S) (u : Nat) (hs : next s .tRun = some s') (ht : s.t = .sleeping u)
     (ha : (s.now, Ev.attempt) ∈ s'.log.drop s.log.length) : u ≤ s.now := by
-  sorry
+  obtain ⟨_, _, _, ht'⟩ := attempt_emitted s s' .tRun hs ha
+  rcases ht' with ⟨h1, _⟩ | ⟨u', h1, hu⟩
+  · simp [ht] at h1
+  · rw [ht] at h1
+    cases h1
+    exact hu
 
 /-- the back-off sequence restarts on success and doubles on failure (ties the manager to C18) -/
 theorem backoff_follows_outcomes (s s' : S) :
     (next s .factoryOk = some s' → s'.backoff = s.backoff.reset) ∧
     (next s .factoryFail = some s' → s'.backoff = s.backoff.failure) := by
-  sorry
+  constructor
+  · intro h
+    simp [next, S.emit] at h
+    obtain ⟨_, h⟩ := h; subst h; rfl
+  · intro h
+    simp [next, S.emit] at h
+    obtain ⟨_, h⟩ := h; subst h; rfl
 
 /-- non-vacuity: a reachable state with a live connection, and a reachable exited state -/
 example : ∃ s, Reach 60 5 5 s ∧ s.live = [0] := by
-  refine ⟨_, ?_, ?_⟩
-  · exact Reach.step _ _ .factoryOk (Reach.step _ _ .tRun (Reach.step _ _ .lRun Reach.init rfl) rfl) rfl
-  · rfl
+  have h1 : next (S.init 60 5 5) .lRun = some (topLogic (S.init 60 5 5)) := rfl
+  have h2 : next (topLogic (S.init 60 5 5)) .tRun = some (afterSleep (topLogic (S.init 60 5 5))) := rfl
+  have h3 : ∃ s, next (afterSleep (topLogic (S.init 60 5 5))) .factoryOk = some s ∧ s.live = [0] := by
+    simp [next, afterSleep, topLogic, S.init, S.emit]
+  obtain ⟨s, h3, hl⟩ := h3
+  exact ⟨s, Reach.step _ _ .factoryOk (Reach.step _ _ .tRun (Reach.step _ _ .lRun Reach.init h1) h2) h3, hl⟩
+
+example : ∃ s, Reach 60 5 5 s ∧ s.lpc = .exited := by
+  have h1 : ∃ s, next (S.init 60 5 5) .close = some s ∧ s.closing = true ∧ s.lpc = .start := by
+    simp [next, S.init, S.emit]
+  obtain ⟨s1, h1, hc, hl⟩ := h1
+  obtain ⟨s2, h2, he⟩ := close_never_waits (md := 60) (th := 5) (sl := 5) s1
+    (Reach.step _ _ .close Reach.init h1) hc (by simp [hl])
+  exact ⟨s2, Reach.step _ _ .lRun (Reach.step _ _ .close Reach.init h1) h2, he⟩
 
 end Amshan.C17
